@@ -137,6 +137,26 @@ func buildPlan(id string, pinned map[string]string, tier string) *Plan {
 			"assembly E2 kernels on amd64 (e2_amd64.s): outside (C09)"}
 		p.Note = "Every tower operation under contract equals the product/sum computed by schoolbook convolution in R[X]/(X^k - nr) from the documented polynomials; sparse products equal the generic product applied to the operand with the documented zero/one coordinates; all alias partitions, including (where the contract says 'option interior') operands pointing into the receiver."
 		return p
+	case "C12":
+		p := &Plan{ID: id}
+		for _, pk := range globPkgs("/repo", "ecc/*/ecdsa") {
+			p.Units = append(p.Units, Unit{Pkg: pk, Tags: "", Groups: []string{"ecdsa"}})
+		}
+		for _, pk := range ecdsaRecoverPkgs("/repo") {
+			p.Units = append(p.Units, Unit{Pkg: pk, Tags: "", Groups: []string{"ecdsarecover"}})
+		}
+		for _, pk := range eddsaPkgs("/repo") {
+			p.Units = append(p.Units, Unit{Pkg: pk, Tags: "", Groups: []string{"eddsa"}})
+		}
+		p.Trusted = []string{"math/big.Int is modelled as a mathematical integer; NewInt, Set*, Add, Sub, Mul, Neg, Mod, ModInverse, Exp, ModSqrt, Cmp, Sign, Bit, SetBytes (big-endian value) are interpreted by their documented meaning (assumed contracts of math/big; Mod / ModInverse / Exp / ModSqrt are uninterpreted functions of their arguments)",
+			"fr.Modulus() returns the pinned modulus; the package variable order (= fr.Modulus()) is that integer",
+			"scalar multiplications, point addition, on-curve tests, HashToInt and the hash object are opaque calls: their arguments and results are captured at the call site; setter-style methods write only their receiver; chained methods return their receiver",
+			"Element.BigInt / SetBigInt are the (uninterpreted) bijection between ring elements and integers at the ring layer"}
+		p.NotCovered = []string{"completeness (every honest signature verifies): needs the group law over scalar multiplication (C03), not under contract",
+			"Sign, GenerateKey, nonce derivation, public-key recovery beyond the x-coordinate of the commitment, key (de)serialisation, the signature.Signer interfaces: not under contract",
+			"EdDSA: which bytes are hashed into H(R, A, M) is not modelled (hash object opaque); the curve order is the value returned by GetEdwardsCurve (not compared with a pinned constant)"}
+		p.Note = "ECDSA: Signature.SetBytes accepts exactly the 2*sizeFr-byte strings with 0 < r, s < n (both directions) and stores them unchanged; Verify refuses (false) on every decoding error, and on acceptance of the encoding returns exactly [ (x(U) mod n) == r ] for the U produced by the joint scalar multiplication called on the public key with u1 = m*s^-1 mod n and u2 = r*s^-1 mod n, m = HashToInt(...) (the textbook equation with the scalar multiplication opaque); recoverP accepts only 0 < r < n and sets x = r + n*bit1(v). EdDSA: Signature.SetBytes accepts only strings of 2*sizeFr bytes with 0 < y(R) < q after clearing the sign bit (mask recomputed from the pinned modulus), 0 < S < order, and R decoded by the point decoder and on the curve; Verify requires a hash, the key on the curve, decodes the signature through that contract, and returns exactly the comparison of [cofactor][S]Base with [cofactor](R + [H]A) computed by the (opaque) point operations in that order on those operands, both results tested on the curve."
+		return p
 	case "C13":
 		p := &Plan{ID: id}
 		p.Units = append(p.Units, Unit{Pkg: "./field/hash", Tags: "", Groups: []string{"expand"}})
